@@ -105,6 +105,12 @@ def gen_case(rng, shape_class=None, big=False):
         "normalize": rng.random() < 0.5,
         # provenance of the node coordinates (as in C04): lon/lat only, Cartesian only, both;
         # supplied Cartesian coordinates on the unit sphere or on a sphere of another radius
+        # connectivity provenance: derived by the library, or supplied by the source in a legitimate but
+        # non-canonical form (edges in arbitrary order, node pairs in either orientation, the two faces of
+        # an interior edge in either order incl. face 0 second; edge_node only / edge_face only / both)
+        "conn": rng.choice(["derived", "derived", "supplied_both", "supplied_both", "supplied_edge_nodes",
+                            "supplied_both_via_from_topology"]),
+        "conn_seed": rng.randrange(1 << 30),
         "node_prov": rng.choice(["ll", "ll", "xyz", "xyz", "both"]),
         "radius": rng.choice([1.0, 1.0, 6371.229, 0.37]),
     }
@@ -121,6 +127,36 @@ def gen_case(rng, shape_class=None, big=False):
 def table_of(case):
     w = max(len(f) for f in case["faces"]) + case["width_extra"]
     return np.array([f + [FILL] * (w - len(f)) for f in case["faces"]], dtype=np.intp)
+
+
+def supplied_connectivity(case):
+    """the source's own edge tables: the canonical ones (sorted node pairs; faces of each edge in face
+    order) with rows permuted, node pairs reversed at random and the two faces of interior rows swapped
+    at random — at least one row lists face 0 second when face 0 has an interior edge"""
+    import random
+    r = random.Random(case["conn_seed"])
+    mp_ = {}
+    for fi, f in enumerate(case["faces"]):
+        for j in range(len(f)):
+            a, b = f[j], f[(j + 1) % len(f)]
+            mp_.setdefault((min(a, b), max(a, b)), []).append(fi)
+    rows = sorted(mp_.items())
+    if any(len(fs) > 2 for _, fs in rows):
+        return None
+    r.shuffle(rows)
+    en, ef = [], []
+    zero_second = False
+    for (a, b), fs in rows:
+        en.append([b, a] if r.random() < 0.5 else [a, b])
+        if len(fs) == 2:
+            f0, f1 = fs
+            if (f0 == 0 and not zero_second) or (f0 != 0 and r.random() < 0.5):
+                f0, f1 = f1, f0
+                zero_second = zero_second or f1 == 0
+            ef.append([f0, f1])
+        else:
+            ef.append([fs[0], FILL])
+    return np.array(en, dtype=np.intp), np.array(ef, dtype=np.intp)
 
 
 def build_grid(case):
@@ -156,16 +192,39 @@ def build_grid(case):
             fa.append(float(np.degrees(np.arcsin(max(-1.0, min(1.0, v[2]))))))
         ds["face_lon"] = xr.DataArray(np.array(fl), dims=["n_face"])
         ds["face_lat"] = xr.DataArray(np.array(fa), dims=["n_face"])
+    conn = case.get("conn", "derived")
+    sc = supplied_connectivity(case) if conn != "derived" else None
+    if sc is None:
+        conn = "derived"
+    else:
+        ds["edge_node_connectivity"] = xr.DataArray(sc[0].copy(), dims=list(ugrid.EDGE_NODE_CONNECTIVITY_DIMS),
+                                                    attrs=dict(ugrid.EDGE_NODE_CONNECTIVITY_ATTRS))
+        if conn != "supplied_edge_nodes":
+            ds["edge_face_connectivity"] = xr.DataArray(sc[1].copy(), dims=list(ugrid.EDGE_FACE_CONNECTIVITY_DIMS),
+                                                        attrs=dict(ugrid.EDGE_FACE_CONNECTIVITY_ATTRS))
+        supplied["_edge_nodes"] = sc[0]
+        if conn != "supplied_edge_nodes":
+            supplied["_edge_faces"] = sc[1]
     if case["sup_end"] or case["sup_efd"]:
-        g0 = ux.Grid.from_topology(lon.copy(), lat.copy(), table_of(case), fill_value=FILL)
-        n_edge = int(g0.n_edge)
+        if sc is not None:
+            n_edge = len(sc[0])
+        else:
+            g0 = ux.Grid.from_topology(lon.copy(), lat.copy(), table_of(case), fill_value=FILL)
+            n_edge = int(g0.n_edge)
         if case["sup_end"]:
             supplied["edge_node_distances"] = np.array([r.randrange(1, 1 << 22) / 1024.0 for _ in range(n_edge)])
         if case["sup_efd"]:
             supplied["edge_face_distances"] = np.array([r.randrange(1, 1 << 22) / 1024.0 for _ in range(n_edge)])
         for k, v in supplied.items():
-            ds[k] = xr.DataArray(v.copy(), dims=["n_edge"])
-    g = ux.Grid(ds, source_grid_spec="UGRID")
+            if not k.startswith("_"):
+                ds[k] = xr.DataArray(v.copy(), dims=["n_edge"])
+    if conn == "supplied_both_via_from_topology" and prov != "xyz" and not (case["sup_end"] or case["sup_efd"]):
+        # the public constructor with the source's tables as keyword arguments
+        kw = {k: ds[k].values.copy() for k in ds.data_vars
+              if k not in ("node_lon", "node_lat", "face_node_connectivity")}
+        g = ux.Grid.from_topology(lon.copy(), lat.copy(), table_of(case), fill_value=FILL, **kw)
+    else:
+        g = ux.Grid(ds, source_grid_spec="UGRID")
     return g, supplied
 
 
@@ -253,7 +312,7 @@ def run_impl(case):
         "data": np.asarray(da.values).copy(), "data_dtype": str(da.dtype),
         "edge_nodes": np.asarray(g.edge_node_connectivity.values).copy(),
         "edge_faces": np.asarray(g.edge_face_connectivity.values).copy(),
-        "supplied": {k: np.asarray(g._ds[k].values).copy() for k in supplied},
+        "supplied": {k: np.asarray(g._ds[k].values).copy() for k in supplied if not k.startswith("_")},
     }
     return out
 
@@ -275,7 +334,8 @@ def spec_check(ck, case, o):
     tf = edge_faces_truth(case, en)
     n_node, n_face = len(nl), len(faces_u)
     base = {"n_face_vs_n_node": "F>V" if n_face > n_node else ("F<V" if n_face < n_node else "F=V"),
-            "node_prov": case.get("node_prov", "ll"), "radius_is_one": float(case.get("radius", 1.0)) == 1.0}
+            "node_prov": case.get("node_prov", "ll"), "radius_is_one": float(case.get("radius", 1.0)) == 1.0,
+            "connectivity": case.get("conn", "derived")}
     hist = list(case.get("history") or []) + ["end", "efd"]
 
     # ---- edge_node_distances: every read along the history
@@ -355,6 +415,8 @@ def spec_check(ck, case, o):
     if not (np.array_equal(aft["edge_nodes"], en) and np.array_equal(aft["edge_faces"], ef)):
         rep(ck, case, "connectivity_changed_by_operation", dict(base, quantity="connectivity", signature="other"))
     for k, v in o["supplied"].items():
+        if k.startswith("_"):
+            continue
         if not np.array_equal(aft["supplied"][k], v):
             rep(ck, case, "supplied_table_changed", dict(base, quantity=k, signature="other"))
     for k, lst in o["results"].items():
@@ -602,7 +664,9 @@ def main(ck):
         "sphere or on a sphere of radius 6371.229 / 0.37; one Grid object per case driven through a random history of reads of "
         "both distance tables, difference(), gradient(normalize=False/True) (some repeated), every table read again at the end: "
         "each read is checked, tables/data/connectivity/supplied tables must be unchanged, repeated calls must agree; "
-        "data face- or node-centred, rank 1-3, dtypes float64/int64/float32/uint8, integer, "
+        "edge_node_connectivity / edge_face_connectivity derived by the library or supplied by the source in non-canonical "
+        "form (rows permuted, node pairs reversed, faces of interior edges swapped incl. face 0 second; through Grid(ds) and "
+        "Grid.from_topology keywords); data face- or node-centred, rank 1-3, dtypes float64/int64/float32/uint8, integer, "
         "real, dyadic or constant values; difference(), gradient(normalize=False/True), each also per leading slice; "
         "non-trivial = grid has >= 2 faces; distinct = distinct (mesh name, sizes, flags, data)")
     stats = {}
@@ -624,6 +688,17 @@ def main(ck):
         for k2, v in (("rank", str(len(c["lead"]) + 1)), ("dtype", c["dtype"]), ("kind", c["kind"]), ("style", c["style"]),
                       ("face_centres", c["face_centres"])):
             dist[k2][v] = dist[k2].get(v, 0) + 1
+        cm = c.get("conn", "derived")
+        dist.setdefault("connectivity", {})
+        dist["connectivity"][cm] = dist["connectivity"].get(cm, 0) + 1
+        if o is not None and "_edge_faces" in o["supplied"]:
+            dist["supplied_edge_face_kept"] = dist.get("supplied_edge_face_kept", 0) + int(
+                np.array_equal(o["edge_faces"], o["supplied"]["_edge_faces"]))
+            dist["rows_with_face0_second"] = dist.get("rows_with_face0_second", 0) + int(
+                np.any(o["edge_faces"][:, 1] == 0))
+        if o is not None and "_edge_nodes" in o["supplied"]:
+            dist["supplied_edge_node_kept"] = dist.get("supplied_edge_node_kept", 0) + int(
+                np.array_equal(o["edge_nodes"], o["supplied"]["_edge_nodes"]))
         np_ = c.get("node_prov", "ll")
         dist["node_prov"][np_] = dist["node_prov"].get(np_, 0) + 1
         dist["scaled_node_xyz"] += int(np_ != "ll" and float(c.get("radius", 1.0)) != 1.0)
